@@ -24,7 +24,8 @@ EXPLANATION = (
     'INVALID, UNINITIALIZED, UNKNOWN and every REMAINING_N, and get(set(n)) == n; (4) the reserved region is large enough for the '
     'largest table the men guard admits, aligned to slots and buckets, guarded by the size test, and placed at the top of the table.'
     ' (5) probeDTM answers only for positions without castling rights (the castle mask is tested in the probe or in the position import it requires).'
-    ' Added later; (7) every adjacent-duplicate filter of the generator compares each element that has a predecessor with it, and the successor / predecessor lists are sorted before they are returned.')
+    ' Added later; (7) every adjacent-duplicate filter of the generator compares each element that has a predecessor with it, and the successor / predecessor lists are sorted before they are returned.'
+    " Added later; (8) in getUnMoves the un-capture moves the black king first and the white king last, as TBIndex::setSquare's special cases require (guard evaluated for every piece number).")
 UNDECIDED = 'exactness of the distance-to-mate values themselves (retrograde analysis over millions of positions is value-level).'
 ASSUMPTIONS = ['8-bit two\'s complement storage of PositionValue::State (S8)',
                'TBPosition index arithmetic (20*64^(N-1) positions) is read from the constructor\'s constants']
@@ -40,6 +41,7 @@ def run(fb, rep, tier):
     c5_probe_scope(fb, rep, 'C12.5')
     c6_block_skip(fb, rep, 'C12.6')
     c7_dedup_filters(fb, rep, 'C12.7')
+    c8_uncapture_order(fb, rep, 'C12.8')
 
 
 # ----------------------------------------------------------------------------- .1
@@ -856,3 +858,87 @@ def _adjacent_eq(c):
                 (_strip12(b.get('l')) or {}).get('id') == a.get('id') and 'cv' in (_strip12(b.get('r')) or {}):
             return (l0.get('id'), a.get('id'), _strip12(b['r'])['cv'])
     return None
+
+
+# ----------------------------------------------------------------------------- .8
+
+def c8_uncapture_order(fb, rep, clause):
+    """K10 agreement between TBIndex::setSquare and its caller.  Absent pieces are encoded on the black king's square; setSquare
+    on the black king (piece number nWhite) drags every piece standing on its old square along, and setSquare on the white
+    king (piece number 0) mirrors the whole board.  When getUnMoves un-captures - the mover i goes back to fromSq and an absent
+    piece j re-appears on the square the mover leaves - the order of the two calls is therefore forced for the two kings:
+    the black king must be moved *first* (else the re-appearing piece is dragged along and the un-capture collapses into the
+    plain king un-move), the white king *last* (else `to` is stale after the mirroring).  The guard that selects the order is
+    evaluated for every piece number of a 4-man table."""
+    ss = fb.find1('TBIndex::setSquare')
+    gu = fb.find1('TBPosition::getUnMoves')
+    if rep.need(clause, ss, 'TBIndex::setSquare') is None or rep.need(clause, gu, 'TBPosition::getUnMoves') is None:
+        return
+    # premise: setSquare special-cases piece 0 (mirrors) and piece nWhite (drags)
+    conds = [show(eff_cond(blk['term']), 80) for bid, blk in ss.blocks.items() if (blk.get('term') or {}).get('c') == 'IfStmt']
+    prem = any('== 0' in c for c in conds) and any('nWhite' in c and '==' in c for c in conds)
+    rep.ob(clause, 'K10 premise', 'TBIndex::setSquare treats piece 0 (white king: mirrors) and piece nWhite (black king: drags absent pieces) specially', prem, ss.where, str(conds), ss.sname)
+    # the un-capture if: both arms hold two setSquare calls
+    found = 0
+    for bid, blk in sorted(gu.blocks.items()):
+        t = blk.get('term') or {}
+        if t.get('c') != 'IfStmt' or len(blk['succ']) != 2:
+            continue
+        arms = []
+        for s_ in blk['succ']:
+            calls = [e for e in gu.blocks[s_]['ev'] if e.get('k') == 'call' and cname(e) == 'TBIndex::setSquare']
+            arms.append(calls)
+        if not all(len(a) == 2 for a in arms):
+            continue
+        found += 1
+        # the mover: the piece-number variable that the un-move loop also used for the plain un-move (first argument that is the loop variable i)
+        first_then, first_else = (_strip12(arms[0][0]['args'][0]) or {}), (_strip12(arms[1][0]['args'][0]) or {})
+        ids_then = [(_strip12(c['args'][0]) or {}).get('id') for c in arms[0]]
+        ids_else = [(_strip12(c['args'][0]) or {}).get('id') for c in arms[1]]
+        if set(ids_then) != set(ids_else) or len(set(ids_then)) != 2:
+            rep.broken(clause, 'the two un-capture arms do not place the same two pieces')
+            return
+        # which of the two is the mover: the one placed on a from-square (second argument differs from the current square `to` of the mover)
+        # structurally: the mover is the variable compared in the guard
+        gvars = {n.get('id') for n in walk(t['cond']) if n.get('k') == 'var'}
+        movers = [v for v in set(ids_then) if v in gvars]
+        if len(movers) != 1:
+            rep.broken(clause, 'the order guard does not test exactly one of the two piece numbers')
+            return
+        mover = movers[0]
+        bad = []
+        for N in (1, 2, 3):
+            for i in range(0, 5):
+                def ev(x):
+                    x = _strip12(x)
+                    if not isinstance(x, dict):
+                        return None
+                    if 'cv' in x and x.get('k') != 'var':
+                        return x['cv']
+                    if x.get('k') == 'var' and x.get('id') == mover:
+                        return i
+                    if ap(x) == 'this.nWhite':
+                        return N
+                    if x.get('k') == 'bin' and x.get('op') in ('==', '!=', '<', '>', '<=', '>=', '&&', '||', '+', '-'):
+                        a, b_ = ev(x.get('l')), ev(x.get('r'))
+                        if a is None or b_ is None:
+                            return None
+                        return {'==': int(a == b_), '!=': int(a != b_), '<': int(a < b_), '>': int(a > b_), '<=': int(a <= b_), '>=': int(a >= b_),
+                                '&&': int(bool(a) and bool(b_)), '||': int(bool(a) or bool(b_)), '+': a + b_, '-': a - b_}[x['op']]
+                    if x.get('k') == 'un' and x.get('op') == '!':
+                        a = ev(x.get('e'))
+                        return None if a is None else int(not a)
+                    return None
+                v = ev(t['cond'])
+                if v is None:
+                    rep.broken(clause, 'the order guard of the un-capture is not evaluable: ' + show(t['cond'], 80))
+                    return
+                order = ids_then if v else ids_else
+                mover_first = order[0] == mover
+                if i == N and not mover_first:
+                    bad.append('black king (piece %d of nWhite=%d) is moved after the re-appearing piece' % (i, N))
+                if i == 0 and mover_first:
+                    bad.append('white king (piece 0) is moved before the re-appearing piece is placed')
+        rep.ob(clause, 'K10 call-order agreement', 'getUnMoves: un-capture moves the black king first and the white king last', not bad, '%s:%s' % (gu.file, t.get('ln')),
+               'guard %s; %s' % (show(t['cond'], 60), sorted(set(bad))[:2]), gu.sname)
+    rep.floor(clause, 'un-capture order decisions in getUnMoves', found, 1)
